@@ -55,7 +55,7 @@ theorem handleStatus_done {P : ILP} {pinf ninf : Rat} {isDbl : Bool} {st : Stage
       split at h
       · split at h
         · cases h
-        · cases h; exact errOut_certified _ _ _ _
+        · cases h
       · split at h
         · rename_i hc
           cases h
